@@ -87,6 +87,7 @@ pub enum RCmd {
     /// `Received::Chunks` recv_chunk until it returns None or an error.
     RecvMsg { k: String, side: usize, name: String, cancel: oneshot::Receiver<()> },
     SetMaxData { n: usize },
+    Probe { k: String },
     Drop,
 }
 
@@ -118,7 +119,19 @@ pub struct World {
     pub produced_rx: mpsc::UnboundedReceiver<Produced>,
     pub started: bool,
     pub run_done: Arc<Mutex<[Option<String>; 2]>>,
+    /// `ChMux::new` calls still in their handshake.
+    pub starting: Vec<(usize, tokio::task::JoinHandle<NewResult>)>,
+    /// local/remote port numbers per handle key, for `$name` placeholders in injected frames
+    pub port_nums: HashMap<String, (u32, u32)>,
+    /// client ports of the OpenPort requests sent by each side, in order (`$open<i>`)
+    pub opens: [Vec<u32>; 2],
+    trace_scanned: usize,
 }
+
+type NewResult = Result<
+    (ChMux<crate::transport::ScriptSink, crate::transport::ScriptStream>, Client, Listener),
+    chmux::ChMuxError<std::io::Error, std::io::Error>,
+>;
 
 fn done(pending: &Pending, k: &str, line: String) {
     pending.lock().unwrap().remove(k);
@@ -360,6 +373,11 @@ fn receiver_actor(
                     }
                 }
                 RCmd::SetMaxData { n } => rxp.set_max_data_size(n),
+                RCmd::Probe { k } => {
+                    let (mon, to_return) = rxp.verif_credits();
+                    let (used, limit) = mon.unwrap_or((0, 0));
+                    done(&pending, &k, format!("probe queue={} used={} limit={} toreturn={}", rxp.verif_queue_len(), used, limit, to_return));
+                }
                 RCmd::Drop => break,
             }
         }
@@ -479,6 +497,10 @@ impl World {
             produced_rx,
             started: false,
             run_done: Arc::new(Mutex::new([None, None])),
+            starting: Vec::new(),
+            port_nums: HashMap::new(),
+            opens: [Vec::new(), Vec::new()],
+            trace_scanned: 0,
         }
     }
 
@@ -490,11 +512,13 @@ impl World {
 
     /// Register ports / requests produced by actors since the last call.
     pub fn collect(&mut self) {
+        self.collect_starts();
         while let Ok(p) = self.produced_rx.try_recv() {
             match p {
                 Produced::Port { name, side, tx, rx } => {
                     tr(format!("port {} {} local={} remote={}", name, side_name(side), tx.local_port(), tx.remote_port()));
                     let key = format!("{}@{}", name, side_name(side));
+                    self.port_nums.insert(key.clone(), (tx.local_port(), tx.remote_port()));
                     self.probes.insert(key.clone(), (Box::new(tx.verif_credits_probe()), Box::new(rx.verif_credits_probe())));
                     let (stx, srx) = mpsc::unbounded_channel();
                     sender_actor(key.clone(), side, tx, srx, self.pending.clone(), self.produced_tx.clone());
@@ -535,22 +559,24 @@ impl World {
         if p.is_empty() { "-".into() } else { p.iter().cloned().collect::<Vec<_>>().join(",") }
     }
 
-    async fn start(&mut self) {
-        let mut news = Vec::new();
-        for side in 0..2 {
-            let cfg = self.cfgs[side].clone();
-            tr(cfg_line(side_name(side), &cfg));
-            let sink = self.wires[side].sink();
-            let stream = self.wires[1 - side].stream();
-            news.push(tokio::spawn(async move { ChMux::new(cfg, sink, stream).await }));
-        }
-        // The handshake needs the wires to move; whatever the script configured applies.
-        for (side, h) in news.into_iter().enumerate() {
-            let res = tokio::select! {
-                r = h => Some(r),
-                _ = tokio::time::sleep(Duration::from_secs(3600 * 24)) => None,
-            };
-            match res {
+    fn spawn_new(&mut self, side: usize) {
+        let cfg = self.cfgs[side].clone();
+        tr(cfg_line(side_name(side), &cfg));
+        let sink = self.wires[side].sink();
+        let stream = self.wires[1 - side].stream();
+        self.starting.push((side, tokio::spawn(async move { ChMux::new(cfg, sink, stream).await })));
+    }
+
+    /// Install the endpoints whose handshake has finished.
+    fn collect_starts(&mut self) {
+        use futures::FutureExt;
+        let mut still = Vec::new();
+        for (side, mut h) in std::mem::take(&mut self.starting) {
+            if !h.is_finished() {
+                still.push((side, h));
+                continue;
+            }
+            match (&mut h).now_or_never() {
                 Some(Ok(Ok((mux, client, listener)))) => {
                     tr(format!("new {} ok", side_name(side)));
                     self.clients[side] = Some(client);
@@ -573,12 +599,71 @@ impl World {
                         run_done.lock().unwrap()[side] = Some(s);
                     });
                 }
-                Some(Ok(Err(e))) => tr(format!("new {} err {}", side_name(side), format!("{e:?}").split(['(', ' ']).next().unwrap_or("?"))),
+                Some(Ok(Err(e))) => {
+                    tr(format!("new {} err {}", side_name(side), format!("{e:?}").split(['(', ' ']).next().unwrap_or("?")))
+                }
                 Some(Err(_)) => tr(format!("new {} panic", side_name(side))),
-                None => tr(format!("new {} hang", side_name(side))),
+                None => still.push((side, h)),
             }
         }
+        self.starting = still;
+    }
+
+    async fn start(&mut self) {
+        for side in 0..2 {
+            self.spawn_new(side);
+        }
+        // The handshake needs the wires to move; whatever the script configured applies.
+        self.settle().await;
+        for (side, _) in &self.starting {
+            tr(format!("new {} hang", side_name(*side)));
+        }
         self.started = true;
+    }
+
+    /// Record the client ports of OpenPort requests put on the wires since the last call.
+    fn scan_opens(&mut self) {
+        let lines = crate::trace::snapshot_from(self.trace_scanned);
+        self.trace_scanned += lines.len();
+        for l in lines {
+            let t: Vec<&str> = l.split_whitespace().collect();
+            if t.len() == 3 && t[0] == "tx" {
+                if let Some(bytes) = unhex(t[2]) {
+                    if bytes.len() >= 5 && bytes[0] == 4 {
+                        let p = u32::from_le_bytes([bytes[1], bytes[2], bytes[3], bytes[4]]);
+                        self.opens[side_idx(t[1])].push(p);
+                    }
+                }
+            }
+        }
+    }
+
+    /// Substitute `$name` (local port of handle name on the real side), `$name.r` (its remote port)
+    /// and `$open<i>` (client port of the i-th OpenPort sent by the real side) in a message text.
+    fn subst(&mut self, real_side: usize, tok: &str) -> String {
+        self.scan_opens();
+        tok.split(',')
+            .map(|part| {
+                if let Some(name) = part.strip_prefix('$') {
+                    if let Some(i) = name.strip_prefix("open") {
+                        if let Ok(i) = i.parse::<usize>() {
+                            return self.opens[real_side].get(i).map(|p| p.to_string()).unwrap_or("4000000000".into());
+                        }
+                    }
+                    let (n, remote) = match name.strip_suffix(".r") {
+                        Some(n) => (n, true),
+                        None => (name, false),
+                    };
+                    match self.port_nums.get(&format!("{}@{}", n, side_name(real_side))) {
+                        Some((l, r)) => (if remote { *r } else { *l }).to_string(),
+                        None => "4000000001".into(),
+                    }
+                } else {
+                    part.to_string()
+                }
+            })
+            .collect::<Vec<_>>()
+            .join(",")
     }
 
     /// Execute one script line.  Returns false on `end`.
@@ -624,6 +709,37 @@ impl World {
             }
             "inject" => self.wires[side_idx(t[1])].inject(Bytes::from(unhex(t[2]).expect("hex"))),
             "start" => self.start().await,
+            "startb" => {
+                // only side B is a real endpoint; the script plays the peer by injecting frames on wire A
+                self.spawn_new(1);
+                self.started = true;
+            }
+            "injectm" => {
+                // injectm <wire> <message text with $placeholders>: frame as sent by the peer of the real side
+                let wire = side_idx(t[1]);
+                let real = 1 - wire;
+                let toks: Vec<String> = t[2..].iter().map(|x| self.subst(real, x)).collect();
+                let refs: Vec<&str> = toks.iter().map(|x| x.as_str()).collect();
+                match crate::wiretext::parse_msg(&refs) {
+                    Some(m) => {
+                        let bytes = remoc::chmux::verif_hooks::encode(&m);
+                        tr(format!("injected {} {}", t[1], toks.join(" ")));
+                        self.wires[wire].inject(Bytes::from(bytes));
+                    }
+                    None => tr(format!("injected {} unparsable {}", t[1], toks.join(" "))),
+                }
+            }
+            "probe" => {
+                // probe k side name: queue length and credits of an idle receiver
+                let (k, key) = (t[1].to_string(), format!("{}@{}", t[3], t[2]));
+                match self.receivers.get(&key).cloned() {
+                    Some(r) => {
+                        self.pending.lock().unwrap().insert(k.clone());
+                        let _ = r.send(RCmd::Probe { k });
+                    }
+                    None => tr(format!("ret {k} err no-such-handle")),
+                }
+            }
             "settle" => {
                 self.settle().await;
                 self.log_credits();
